@@ -564,6 +564,10 @@ ApplyStep(st, s, dbs, schema) ==
          [] s.op = "window"    -> Window(st, s, dbs, schema)
          [] s.op = "join"      -> Join(st, s, dbs, schema)
          [] s.op = "append"    -> AppendT(st, s, dbs, schema)
+         \* scope-breaking steps (C10): a call with a surplus positional argument,
+         \* an unknown named argument, a scalar where a relation is required or
+         \* a relation where a scalar is required.  s.kind names the breakage.
+         [] s.op = "bad"       -> Err(st)
          [] OTHER              -> Unsup(st)
 
 RunPipe(st, steps, dbs, schema) ==
